@@ -141,6 +141,8 @@ pub fn scope(m: &Model, ctx: &mut Ctx, rule: &str) {
                     ("unrelated type sorts first", vec![("Alarm", 9i128, None), ("Colour", 1, None)], "Colour", 1i128),
                     ("governing type sorts first", vec![("Colour", 1, None), ("Signal", 9, None)], "Colour", 1),
                     ("only the governing type defines it", vec![("Colour", 1, None), ("Other", -1, None)], "Colour", 1),
+                    ("INTEGER named number, unrelated INTEGER sorts first", vec![("Alarm", 8, None), ("Colour", 4, None)], "Colour", 4),
+                    ("INTEGER named number behind a reference", vec![("Alarm", 8, None), ("Colour", 4, None), ("Shade", -1, Some("Colour"))], "Shade", 4),
                     ("governing type is a reference to the defining type", vec![("Alarm", 9, None), ("Colour", 1, None), ("Shade", -1, Some("Colour"))], "Shade", 1),
                     ("governing type is a reference to a reference", vec![("Alarm", 9, None), ("Colour", 1, None), ("Shade", -1, Some("Colour")), ("Tint", -1, Some("Shade"))], "Tint", 1),
                 ];
@@ -158,7 +160,28 @@ pub fn scope(m: &Model, ctx: &mut Ctx, rule: &str) {
                                 d.insert("identifier".to_string(), Val::Str(a.clone()));
                                 Val::Ctor("ElsewhereDeclaredType".into(), vec![Val::Ctor("DeclarationElsewhere".into(), vec![], d)], Map::new())
                             }
-                            None => Val::Ctor("Integer".into(), vec![Val::Opaque("integer".into())], Map::new()),
+                            // an INTEGER with the named number `red(v)` (a negative v: the type does not define `red`), or — for
+                            // odd v — an ENUMERATED with the enumeral `red` numbered v: the lookup itself is the crate's code
+                            None if v >= 0 && v % 2 == 1 => {
+                                let mut en = Map::new();
+                                en.insert("name".to_string(), Val::Str("red".into()));
+                                en.insert("index".to_string(), Val::int(v));
+                                let mut other = Map::new();
+                                other.insert("name".to_string(), Val::Str("zz".into()));
+                                other.insert("index".to_string(), Val::int(v + 100));
+                                let mut e = Map::new();
+                                e.insert("members".to_string(), Val::List(vec![Val::Ctor("Enumeral".into(), vec![], other), Val::Ctor("Enumeral".into(), vec![], en)]));
+                                Val::Ctor("Enumerated".into(), vec![Val::Ctor("Enumerated".into(), vec![], e)], Map::new())
+                            }
+                            None => {
+                                let mut dv = Map::new();
+                                dv.insert("name".to_string(), Val::Str(if v >= 0 { "red" } else { "unrelated" }.into()));
+                                dv.insert("value".to_string(), Val::int(v));
+                                let mut i = Map::new();
+                                i.insert("distinguished_values".to_string(), Val::some(Val::List(vec![Val::Ctor("DistinguishedValue".into(), vec![], dv)])));
+                                i.insert("constraints".to_string(), Val::List(vec![]));
+                                Val::Ctor("Integer".into(), vec![Val::Ctor("Integer".into(), vec![], i)], Map::new())
+                            }
                         };
                         f.insert("ty".to_string(), ty);
                         Val::Ctor("Type".into(), vec![Val::Ctor("ToplevelTypeDefinition".into(), vec![], f)], Map::new())
@@ -179,23 +202,11 @@ pub fn scope(m: &Model, ctx: &mut Ctx, rule: &str) {
                                     if name == ".iter" { Val::Tuple(vec![Val::Str(n.clone()), t]) } else { t }
                                 }).collect())))
                             }
-                            (".get_distinguished_or_enum_value", Some(Val::Ctor(_, inner, _))) => {
-                                let f = match inner.first() { Some(Val::Ctor(_, _, f)) => f.clone(), _ => return Some(Err("get_distinguished_or_enum_value on an unknown definition".into())) };
-                                let tname = match f.get("name") { Some(Val::Str(n)) => n.clone(), _ => String::new() };
-                                let num = match f.get("number") { Some(Val::Int { v, .. }) => *v, _ => 0 };
-                                let typed = match a.get(1) {
-                                    Some(Val::Ctor(s, p, _)) if s == "Some" => match p.first() { Some(Val::Str(t)) => Some(t.clone()), _ => Some(String::new()) },
-                                    _ => None,
-                                };
-                                // a type without the identifier is marked with a negative number
-                                let defines = num >= 0;
-                                let hit = defines && typed.map(|t| t == tname).unwrap_or(true);
-                                Some(Ok(if hit { Val::some(Val::Ctor("Integer".into(), vec![Val::int(num)], Map::new())) } else { Val::none() }))
-                            }
                             _ => None,
                         }
                     };
-                    let ev = Evaluator { consts: &consts, call_hook: &hook, inline: None };
+                    let inl = inline_all(m, &["ToplevelDefinition"]);
+                    let ev = Evaluator { consts: &consts, call_hook: &hook, inline: Some(&inl) };
                     let mut env = Env::new();
                     env.insert(params.first().cloned().unwrap_or("type_name".into()), Val::Str(governing.into()));
                     env.insert(params.get(1).cloned().unwrap_or("name".into()), Val::Str("red".into()));
